@@ -22,6 +22,7 @@ import (
 
 type C04Opts struct {
 	Allowed []string `json:"allowed,omitempty"`
+	Split   bool     `json:"allowed_one_option_per_field,omitempty"` // each allowed field in its own AllowExtraSiblingFields option
 	Fmt     bool     `json:"format_validation,omitempty"`
 	NoPat   bool     `json:"pattern_validation_disabled,omitempty"`
 	NoDef   bool     `json:"defaults_validation_disabled,omitempty"`
@@ -502,7 +503,11 @@ func (o C04Opts) goOpts() []openapi3.ValidationOption {
 		// first, so that it cannot undo a DisableSchemaPatternValidation asked for below
 		out = append(out, openapi3.EnableSchemaPatternValidation())
 	}
-	if len(o.Allowed) > 0 {
+	if len(o.Allowed) > 0 && o.Split {
+		for _, f := range o.Allowed {
+			out = append(out, openapi3.AllowExtraSiblingFields(f))
+		}
+	} else if len(o.Allowed) > 0 {
 		out = append(out, openapi3.AllowExtraSiblingFields(o.Allowed...))
 	}
 	if o.Fmt {
@@ -1133,6 +1138,16 @@ func c04Random(r *Rng) C04Case {
 		c.Opts = C04Opts{Fmt: r.Chance(25), NoPat: r.Chance(20), NoDef: r.Chance(20), NoEx: r.Chance(25), NoExt: r.Chance(25), Noop: r.Chance(30)}
 		if r.Chance(30) {
 			c.Opts.Allowed = []string{Pick(r, []string{"bogus", "description", "x-sibling", "x-extra"})}
+			if r.Chance(50) {
+				// two fields, possibly each in its own option: the options add up
+				if second := Pick(r, []string{"bogus", "description", "x-sibling"}); second != c.Opts.Allowed[0] {
+					c.Opts.Allowed = append(c.Opts.Allowed, second)
+					if r.Bool() {
+						c.Opts.Allowed[0], c.Opts.Allowed[1] = c.Opts.Allowed[1], c.Opts.Allowed[0]
+					}
+				}
+				c.Opts.Split = r.Chance(70)
+			}
 		}
 		if r.Chance(35) {
 			for k := 1 + r.Intn(3); k > 0; k-- {
@@ -1276,6 +1291,24 @@ func c04Directed() []C04Case {
 					}
 				}
 				out = append(out, c)
+			}
+		}
+	}
+	// several AllowExtraSiblingFields options in one call add up: each field allowed by its own option, in both orders
+	for _, allowed := range [][]string{{"bogus", "description"}, {"description", "bogus"}, {"bogus", "description", "x-sibling"}} {
+		for _, split := range []bool{true, false} {
+			for _, mutName := range []string{"unknown-field", "ref-sibling-field"} {
+				for k := 0; k < 3; k++ {
+					c := C04Case{Doc: c04Base(NewRng(99)), Opts: C04Opts{Allowed: allowed, Split: split}}
+					for i := range c04Muts {
+						if c04Muts[i].name == mutName {
+							if pos := c04Muts[i].f(NewRng(uint64(len(out)+k)), c.Doc, c04Locs(c.Doc)); pos != "" {
+								c.Muts = []string{mutName + " " + pos}
+							}
+						}
+					}
+					out = append(out, c)
+				}
 			}
 		}
 	}
